@@ -4,22 +4,22 @@ import json, glob, os
 V = os.path.dirname(os.path.dirname(os.path.abspath(__file__)))
 SPEC = {
  'C01': ('IA32Space (decode automaton driven forwards)', 'T_C01 / IA32Judge over IA32Decode'),
- 'C02': ('AsmSpace (canonical lines incl. implausible ones)', 'T_C02 / AsmExpect over IA32Decode'),
+ 'C02': ('AsmSpace (canonical lines incl. implausible ones; condition-name, segment, memory, immediate sweeps) in Intel, AT&T, split-displacement and leading-zero layouts', 'T_C02 / AsmExpect over IA32Decode'),
  'C03': ('AsmSpace + IA32Space', 'T_C03 (fixpoint both directions; GNU as decides canonical)'),
- 'C04': ('X86Space (instances x states; bytes from GNU as)', 'T_C04: IR.Eval(lifted) vs X86Sem.Step; X86Calib calibrates Step on the host CPU'),
- 'C05': ('IRGen (typed stack machine) + seeded random/DAG trees', 'T_C05 (Eval on valuation grids); T_SIMP vs SimpRules.Step'),
- 'C06': ('IRGen x C06Space (5^8 machine states) + lifted source expressions', 'T_C06 (Eval(result, val) = Eval(e, val o state))'),
- 'C07': ('SymMem histories, Prog programs (Machine.RepStep)', 'T_C07 (read-backs vs concrete memory; SymPool invariants)'),
- 'C08': ('X86Space + X86RWSpace', 'T_C08 (X86RW declared sets, probed against Step by X86RWSelf)'),
+ 'C04': ('X86Space (instances x states, AddrForms; bytes from GNU as); each instance lifted twice', 'T_C04: IR.Eval(lifted) vs X86Sem.Step; X86Calib calibrates Step on the host CPU'),
+ 'C05': ('IRGen (typed stack machine) + seeded families (random, DAG, loose concatenations, two-pass, prefix twins, same-text)', 'T_C05 (Eval on valuation grids); T_SIMP vs SimpRules.Step'),
+ 'C06': ('IRGen x C06Space (machine states incl. cross-referencing bindings) + folding family + lifted source expressions; one object under several states', 'T_C06 (Eval(result, val) = Eval(e, val o state))'),
+ 'C07': ('SymMem histories, Prog programs (Machine.RepStep; pointers loaded from memory, copied rep counts, setcc/cmovcc)', 'T_C07 (read-backs vs concrete memory; SymPool invariants)'),
+ 'C08': ('X86Space + X86RWSpace', 'T_C08 (X86RW declared sets; X86Probe dependency probing for degenerate instances; reported cells concretised with IR.Eval against the bytes Step reads/writes)'),
  'C09': ('IA32Space', 'T_C09 (Syntax.Denote of both renderings, asm round trip, GNU as)'),
- 'C10': ('IA32Space + truncations/junk/offsets, Tokens', 'T_C10 (Stream) and T_C10A'),
- 'C11': ('ByteSpace', 'T_C11 (IR.WellTyped/Width/Eval, culprit signature)'),
+ 'C10': ('IA32Space + truncations/junk/offsets through three stream classes, Tokens + canonical lines', 'T_C10 (Stream) and T_C10A'),
+ 'C11': ('ByteSpace + IA32Space (blocks decoded first, lifted afterwards)', 'T_C11 (IR.WellTyped/Width/Eval, culprit signature)'),
  'C12': ('Api (call histories x PLY cache configurations), Caches model', 'T_C12 (learned call-key -> result function; pools, inputs, tables unchanged)'),
- 'C13': ('IRVarGen (tree, AC-variant) + DAG trees + program dumps', 'T_C13'),
+ 'C13': ('IRVarGen (tree, AC-variant) + DAG trees, segment twins, cancelling sums, slice merges + program dumps', 'T_C13'),
  'C14': ('ModIntSpace (8-bit exhaustive sweeps, boundary operands)', 'T_C14 over ModInt (native + limb paths)'),
- 'C15': ('IRDeriveGen (mutations, replacement maps)', 'T_C15 (Subst, Eval, structural equality)'),
- 'C16': ('IRDeriveGen (patterns, same-shape non-instances)', 'T_C16 (dependency probing with Eval; Subst(pattern, binding) = e)'),
- 'C17': ('IA32Space x instruction offsets', 'T_C17 over IA32Flow'),
+ 'C15': ('IRDeriveGen (mutations, replacement maps incl. chains/swaps) + objects returned by the simplifier; identifier flavours', 'T_C15 (Subst, Eval, structural equality)'),
+ 'C16': ('IRDeriveGen (patterns, same-shape and partial-substitution non-instances)', 'T_C16 (dependency probing with Eval; Subst(pattern, binding) = e)'),
+ 'C17': ('IA32Space x instruction offsets (fresh decode, and decode-ask-move-ask)', 'T_C17 over IA32Flow'),
  'C18': ('PPCSpace', 'T_C18 over PPC'),
  'C19': ('Spelling (presentation actions over AsmSpace lines)', 'T_C19 (learned candidate set per canonical line)'),
 }
